@@ -23,7 +23,7 @@ def work(job):
     slot = slots.get()
     try:
         # scratch worktree + scratch copy of /verif: /repo's working tree is never touched
-        p = subprocess.run(["python3", "/verif/tools/try_patch_wt.py", patch, pid, "--tier", tier, "--slot", str(10 + slot)], capture_output=True, text=True)
+        p = subprocess.run(["python3", os.path.join(os.environ.get("VERIF_SRC", "/verif"), "tools/try_patch_wt.py"), patch, pid, "--tier", tier, "--slot", str(10 + slot)], capture_output=True, text=True)
     finally:
         slots.put(slot)
     lines = [l for l in p.stdout.splitlines() if not l.startswith("WARNING")]
